@@ -949,6 +949,10 @@ class Interp:
                     return Const(l.v % r.v)
                 if op is ast.FloorDiv:
                     return Const(l.v // r.v)
+                if op is ast.Div and getattr(self, 'concrete_context', False):
+                    return Const(l.v / r.v)
+            except ZeroDivisionError as e:
+                raise Raised('ZeroDivisionError: %s' % e, getattr(n, 'lineno', 0))
             except Exception:
                 raise Undecided('constant arithmetic failed at line %s' % getattr(n, 'lineno', '?'))
         if op is ast.Add and isinstance(l, (ListV, TupleV)) and isinstance(r, (ListV, TupleV)):
